@@ -17,7 +17,7 @@ import (
 
 func genC13Dead(t *rapid.T) *vnet.Scenario {
 	sc := &vnet.Scenario{}
-	sc.N = rapid.SampledFrom([]int{1, 2, 3, 3, 5, 20, 254}).Draw(t, "n")
+	sc.N = rapid.SampledFrom([]int{1, 2, 3, 3, 5, 20, 20, 254, 254}).Draw(t, "n")
 	mk := func(label string, must bool) vnet.TimeoutCfg {
 		var c vnet.TimeoutCfg
 		c.Static = rapid.Bool().Draw(t, label+"_static")
@@ -55,8 +55,23 @@ func genC13Dead(t *rapid.T) *vnet.Scenario {
 		}
 		m := make([]vnet.Msg, k)
 		at := rapid.SampledFrom([]int{0, 1, 50, 400, 1000, 3000}).Draw(t, label+"_at")
+		// trickle: the application keeps sending at intervals below the ping
+		// interval (also after the transport has gone silent), instead of
+		// one burst
+		gap := 0
+		if rapid.IntRange(0, 2).Draw(t, label+"_trickle") == 0 {
+			ping := sc.Client.PingMs
+			if sc.Server.PingMs > 0 && (ping == 0 || sc.Server.PingMs < ping) {
+				ping = sc.Server.PingMs
+			}
+			if ping == 0 {
+				ping = 1000
+			}
+			gap = rapid.SampledFrom([]int{ping / 4, ping / 2, ping - 1}).Draw(t, label+"_gap")
+		}
 		for i := range m {
 			m[i].Len = rapid.IntRange(0, 32).Draw(t, label+"_len")
+			m[i].GapMs = gap
 		}
 		if k > 0 {
 			m[0].GapMs = at
